@@ -98,6 +98,8 @@ def known_behavioural(ctx, feats, r):
         m = e.get("match", {})
         if m.get("feature") and m["feature"] not in feats:
             continue
+        if m.get("features_any") and not any(f in feats for f in m["features_any"]):
+            continue
         if m.get("erg_class") and m["erg_class"] != r["erg_class"]:
             continue
         if m.get("stderr_contains") and m["stderr_contains"] not in r.get("erg_err", ""):
@@ -214,7 +216,7 @@ def run(ctx):
     gone = []
     for e, r in zip(wl, wres):
         still = (r["erg_class"], r["erg_out"]) != (r["py_class"], r["py_out"]) and \
-            known_behavioural(ctx, [e.get("match", {}).get("feature", "")] + derived_features(e["witness_py"], r), r) is not None
+            known_behavioural(ctx, [e.get("match", {}).get("feature", "")] + list(e.get("match", {}).get("features_any", [])) + derived_features(e["witness_py"], r), r) is not None
         if still:
             n = len(known_hits.get(e["id"], []))
             ctx.print_known(e, f"{e.get('summary', '')} [witness still fails as recorded: real {r['erg_class']} vs Python reading {r['py_class']}; {n} generated program(s) of this class in this run]")
